@@ -129,7 +129,8 @@ pub fn build_tree(top: &[u8], gents: &[GEnt], root_abs: &[u8], max_depth: usize)
                 ents.push(Ent::file(&path, Content::data(*l as u64, *s)).with_mode(g.mode as u32).with_mtime(mt.0, mt.1));
             }
             GK::Sparse(d, h, first) => {
-                let segs = if *first { vec![Seg::Hole(*h as u64 * 4096), Seg::Data(*d as u64, 3)] } else { vec![Seg::Data(*d as u64, 3), Seg::Hole(*h as u64 * 4096)] };
+                // a third of them with two data runs (two extents: two queued ranges in the block driver)
+                let segs = if *h % 3 == 0 { vec![Seg::Data(*d as u64, 3), Seg::Hole(*h as u64 * 4096), Seg::Data(*d as u64 / 2 + 1, 4)] } else if *first { vec![Seg::Hole(*h as u64 * 4096), Seg::Data(*d as u64, 3)] } else { vec![Seg::Data(*d as u64, 3), Seg::Hole(*h as u64 * 4096)] };
                 ents.push(Ent::file(&path, Content { segs, sync: i % 2 == 0 }).with_mode(g.mode as u32).with_mtime(mt.0, mt.1));
             }
             GK::Fifo => ents.push(Ent::new(&path, Kind::Fifo).with_mode(0o644)),
